@@ -155,7 +155,7 @@ def run(ctx):
     ctx.assumptions = [
         "sequentially consistent interleaving at access granularity (weak-memory stale reads of the CAS protocols are not exhibited by the model; the memory ordering of every access site is pinned by the trace comparison; core::sync::atomic::fence is not gated and not modelled)",
         "UniqueIndexSet theorems assume bounded_tag: no pending head-CAS spans >= 2^16 successful head updates (refuted without it: c09_uis_tag_wrap_refuted, replayed on the real code)",
-        "robust set: thread-level held-list exclusivity (c09_ruis_held_exclusive_full) and recover completeness (c09_ruis_recover_complete_full) are stated, not proved; they are checked by the oracle on every explored execution",
+        "robust set: thread-level held-list exclusivity holds for owner ids no recover has taken (c09_ruis_held_exclusive_partial; refuted without that hypothesis: recover on an owner still inside acquire); the thread-level lock clause excludes the 2^64-increment overflow of the generation counter; recover completeness is stated through ghost stamps of the model",
         "loads of the logger's LOG_LEVEL atomic performed by fail! on error paths are dropped from the trace (not part of the algorithms)",
         "tie = trace equality on the explored schedules; the gate (cargo paths override of iceoryx2-pal-concurrency-sync) is generated from /repo's current source",
     ]
